@@ -41,12 +41,17 @@ pub fn valid_abs(o: &[u8]) -> bool {
         && walk_rel(&o[..o.len() - 1]).is_some()
 }
 
-/// Content octets that include everything a text parser treats specially;
-/// a builder works on octets, none of them may matter.
+/// Content octets for the builder calls.  A builder works on octets and
+/// none of them may matter to it.  All values are 0 or >= 64, i.e. none is a
+/// possible length octet of a label: if a deviation leaves a stale length
+/// octet behind, the independent walk then cannot stumble into a well-formed
+/// reading of the buffer by accident, so "malformed" is a function of the
+/// abstract state.  (Escape-relevant content is the subject of the
+/// representation cases.)
 pub struct Fill(pub usize);
 impl Fill {
     pub fn next(&mut self) -> u8 {
-        const T: [u8; 12] = [b'a', 0, b'.', b'\\', 0xff, b'Z', 0x40, 0xc0, b' ', 63, 1, b'0'];
+        const T: [u8; 10] = [b'a', 0, b'\\', 0xff, b'Z', 0x40, 0xc0, b'z', 0x7f, 0x80];
         self.0 += 1;
         T[self.0 % T.len()]
     }
@@ -218,7 +223,7 @@ pub fn obs(b: &B, op: &str, res: &str, out: Value) -> Value {
 
 /// Build a real builder whose projection is `s` = [len, open, cur, nlab, 1]
 /// using only label-at-a-time calls well inside the limits.
-pub fn construct(s: &Value, fill: &mut Fill) -> Option<B> {
+pub fn construct(s: &Value, fresh: bool, fill: &mut Fill) -> Option<B> {
     let g = |i: usize| s[i].as_i64().unwrap_or(-1);
     let (len, open, cur, nlab) = (g(0), g(1) == 1, g(2), g(3));
     if g(4) != 1 || len < 0 || cur < 0 || nlab < 0 {
@@ -241,6 +246,13 @@ pub fn construct(s: &Value, fill: &mut Fill) -> Option<B> {
     }
     if open {
         b.append_slice(&fill.bytes(cur as usize)).ok()?;
+    }
+    if fresh {
+        // a failed append_label writes the open label's length octet
+        // before it puts the label back
+        if !open || b.append_label(&[b'x'; 64]).is_ok() {
+            return None;
+        }
     }
     if &proj(&b) == s {
         Some(b)
